@@ -45,6 +45,8 @@ M_SECTIONS = [
     [("h", "Colon: Name"), ("match", 'contains("A:B") and amount == 5'), ("category", "Food: Drink #1"), ("subcategory", "Sub # 2"),
      ("tags", "x, #y, z #w")],
     [("h", "Src"), ("match", 'source == "Amex" or regex("AM(EX|AZON)")'), ("subcategory", "OnlySub"), ("tags", "t1")],
+    # a let name bound twice, the second binding reading the first: both lines are validated, both are kept in order
+    [("h", "Rebind"), ("let", "mid = amount > 10"), ("let", "mid = mid and amount < 5000"), ("match", "mid"), ("category", "Mid")],
     # values holding characters that str.splitlines() (but not a line-oriented reader) treats as line ends
     [("h", "Sep\u2028Name"), ("match", 'contains("AB\x0cCD") or contains("X")'), ("category", "Cat\x0bVT"), ("subcategory", "Sub\x85NEL"), ("tags", "t\u2029p, q")],
 ]
